@@ -192,6 +192,11 @@ def c17(r):
     r.tlc_exhaustive("LazyAgg.tla", "LazyAgg.cfg", workers=8)
     r.tlc_exhaustive("LazyAgg.tla", "LazyAgg_normal.cfg", workers=8)
     r.tlc_exhaustive("LazyAgg.tla", "LazyAgg_slow.cfg", workers=8)
+    # a restarted node: the loop starts on an existing chain; the deviation "wait the idle interval" must fail
+    r.tlc_exhaustive("LazyAgg.tla", "LazyAgg_resume.cfg", workers=8)
+    ok2, _ = r.tlc_exhaustive("LazyAgg.tla", "LazyAgg_startidle.cfg", workers=8, expect_ok=False)
+    if ok2:
+        raise Inconclusive("LazyAgg_startidle.cfg should reproduce the late first block after a restart")
     ok, _ = r.tlc_exhaustive("LazyAgg.tla", "LazyAgg_drain.cfg", workers=8, expect_ok=False)
     if ok:
         raise Inconclusive("LazyAgg_drain.cfg should reproduce the lost wake-up")
